@@ -74,6 +74,7 @@ package bluemonday
 //@     invariant[C06,textpres] stepOK(p, tzCur, outN, outLast)
 //@     invariant[C08,wellnested] gD >= 0 && skippingElementsCount == gD && (skipElementContent <==> gD > 0)
 //@     invariant[C08,wellnested] forall i int :: 0 <= i && i < len(closingTagToSkipStack) ==> elAllowed(p, closingTagToSkipStack[i])
+//@     invariant[C08,wellnested] tzCur.Type == 1 && gD == 0 && mostRecentlyStartedToken != "script" && mostRecentlyStartedToken != "style" ==> outN == 1 && outLast == TokString(tzCur, elems(tzCur.Attr))
 //@   loop 1 "for regex := range p.elsMatchingAndAttrs"
 //@     invariant[C06,textpres] skippingElementsCount == 0 && mostRecentlyStartedToken != "script" && mostRecentlyStartedToken != "style"
 //@     invariant match <==> (exists r *regexp.Regexp :: $visited(r) && rmatch(r, token.Data))
@@ -92,7 +93,7 @@ package bluemonday
 //@   sets lastBuf = result
 //@   requires wfp(p) && p.initialized && r != nil
 //@   requires[C16] !outFailed
-//@   modifies ghost outFailed, outN, outLast, outCount, tzCur, tzPrev, tzErr, sanEl, sanRes, lastErr, lastBuf
+//@   modifies ghost outFailed, outN, outLast, outCount, tzCur, tzPrev, tzErr, sanEl, sanRes, lastErr, lastBuf, gD
 //@   modifies nothing
 //@   ensures result != nil && fresh(result)
 //@   ensures[C16] tzErr != io.EOF ==> bufEmpty(result)
@@ -102,7 +103,7 @@ package bluemonday
 //@   ensures[C15] result == lastBuf
 //@   requires wfp(p) && p.initialized && r != nil
 //@   requires[C16] !outFailed
-//@   modifies ghost outFailed, outN, outLast, outCount, tzCur, tzPrev, tzErr, sanEl, sanRes, lastErr, lastBuf
+//@   modifies ghost outFailed, outN, outLast, outCount, tzCur, tzPrev, tzErr, sanEl, sanRes, lastErr, lastBuf, gD
 //@   modifies nothing
 //@   ensures result != nil && fresh(result)
 //@   ensures[C16] tzErr != io.EOF ==> bufEmpty(result)
@@ -111,7 +112,7 @@ package bluemonday
 //@   ensures[C15] result == lastErr
 //@   requires wfp(p) && p.initialized && r != nil && w != nil
 //@   requires[C16] !outFailed
-//@   modifies ghost outFailed, outN, outLast, outCount, tzCur, tzPrev, tzErr, sanEl, sanRes, lastErr, lastBuf
+//@   modifies ghost outFailed, outN, outLast, outCount, tzCur, tzPrev, tzErr, sanEl, sanRes, lastErr, lastBuf, gD
 //@   modifies nothing
 //@   ensures[C16] outFailed ==> result != nil
 //@   ensures[C16] result == nil ==> tzErr == io.EOF
@@ -303,7 +304,7 @@ package bluemonday
 //@ func (*bluemonday.Policy).Sanitize
 //@   requires wfp(p) && p.initialized
 //@   requires[C16] !outFailed
-//@   modifies ghost outFailed, outN, outLast, outCount, tzCur, tzPrev, tzErr, sanEl, sanRes, lastErr, lastBuf
+//@   modifies ghost outFailed, outN, outLast, outCount, tzCur, tzPrev, tzErr, sanEl, sanRes, lastErr, lastBuf, gD
 //@   modifies nothing
 //@   ensures[C15] strings.TrimSpace(s) == "" ==> result == s
 //@   ensures[C15] strings.TrimSpace(s) != "" ==> result == bufStr(elems(lastBuf.buf), off(lastBuf.buf) + lastBuf.off, len(lastBuf.buf) - lastBuf.off)
@@ -311,7 +312,7 @@ package bluemonday
 //@ func (*bluemonday.Policy).SanitizeBytes
 //@   requires wfp(p) && p.initialized
 //@   requires[C16] !outFailed
-//@   modifies ghost outFailed, outN, outLast, outCount, tzCur, tzPrev, tzErr, sanEl, sanRes, lastErr, lastBuf
+//@   modifies ghost outFailed, outN, outLast, outCount, tzCur, tzPrev, tzErr, sanEl, sanRes, lastErr, lastBuf, gD
 //@   modifies nothing
 //@   ensures[C15] len(bytes.TrimSpace(b)) == 0 ==> result == b
 //@   ensures[C15] len(bytes.TrimSpace(b)) != 0 ==> string(result) == bufStr(elems(lastBuf.buf), off(lastBuf.buf) + lastBuf.off, len(lastBuf.buf) - lastBuf.off)
@@ -323,6 +324,7 @@ package bluemonday
 //@   reveal wfRegex, wfInner, wfURLPols
 //@   ensures result != nil && fresh(result) && wfp(result) && result.initialized
 //@   ensures[C17] fresh(result.elsAndAttrs) && fresh(result.elsMatchingAndAttrs) && fresh(result.globalAttrs) && fresh(result.elsAndStyles) && fresh(result.elsMatchingAndStyles) && fresh(result.globalStyles) && fresh(result.allowURLSchemes) && fresh(result.setOfElementsAllowedWithoutAttrs) && fresh(result.setOfElementsToSkipContent)
+//@   ensures[C08] defaultSkipSet(result)
 //@   ensures[C04,C17] forall e string :: !(e in result.elsAndAttrs)
 //@   ensures[C04,C17] forall r *regexp.Regexp :: !(r in result.elsMatchingAndAttrs)
 //@   ensures[C04,C17] !result.allowComments && !result.allowUnsafe && !result.addSpaces && !result.allowDataAttributes && !result.requireParseableURLs
@@ -340,6 +342,7 @@ package bluemonday
 //@   reveal wfRegex, wfInner, wfURLPols
 //@   requires wfp(p)
 //@   ensures wfp(p) && p.initialized
+//@   ensures[C08] defaultSkipSet(p)
 //@   modifies p when !p.initialized
 //@   modifies p.setOfElementsToSkipContent
 
@@ -660,13 +663,13 @@ package bluemonday
 //@   modifies p when !p.initialized
 //@   modifies p.setOfElementsToSkipContent
 //@   ensures result == p && wfp(p) && p.initialized
-//@   ensures[C17] forall i int :: 0 <= i && i < len(names) ==> strings.ToLower(names[i]) in p.setOfElementsToSkipContent
-//@   ensures[C17] forall e string :: old(p.initialized && e in p.setOfElementsToSkipContent) ==> e in p.setOfElementsToSkipContent
+//@   ensures[C08,C17] forall i int :: 0 <= i && i < len(names) ==> strings.ToLower(names[i]) in p.setOfElementsToSkipContent
+//@   ensures[C08,C17] forall e string :: old(p.initialized && e in p.setOfElementsToSkipContent) ==> e in p.setOfElementsToSkipContent
 //@   loop 0 "for _, element := range names"
 //@     invariant wfp(p) && p.initialized && (old(p.initialized) ==> p.setOfElementsToSkipContent == old(p.setOfElementsToSkipContent))
 //@     invariant forall i int :: 0 <= i && i < len(names) ==> names[i] == pre(names[i])
-//@     invariant[C17] forall i int :: 0 <= i && i <= rangeindex ==> strings.ToLower(names[i]) in p.setOfElementsToSkipContent
-//@     invariant[C17] forall e string :: old(p.initialized && e in p.setOfElementsToSkipContent) ==> e in p.setOfElementsToSkipContent
+//@     invariant[C08,C17] forall i int :: 0 <= i && i <= rangeindex ==> strings.ToLower(names[i]) in p.setOfElementsToSkipContent
+//@     invariant[C08,C17] forall e string :: old(p.initialized && e in p.setOfElementsToSkipContent) ==> e in p.setOfElementsToSkipContent
 
 //@ func (*bluemonday.Policy).AllowElementsContent
 //@   reveal wfRegex, wfInner, wfURLPols
@@ -674,11 +677,11 @@ package bluemonday
 //@   modifies p when !p.initialized
 //@   modifies p.setOfElementsToSkipContent
 //@   ensures result == p && wfp(p) && p.initialized
-//@   ensures[C17] forall i int :: 0 <= i && i < len(names) ==> !(strings.ToLower(names[i]) in p.setOfElementsToSkipContent)
+//@   ensures[C08,C17] forall i int :: 0 <= i && i < len(names) ==> !(strings.ToLower(names[i]) in p.setOfElementsToSkipContent)
 //@   loop 0 "for _, element := range names"
 //@     invariant wfp(p) && p.initialized && (old(p.initialized) ==> p.setOfElementsToSkipContent == old(p.setOfElementsToSkipContent))
 //@     invariant forall i int :: 0 <= i && i < len(names) ==> names[i] == pre(names[i])
-//@     invariant[C17] forall i int :: 0 <= i && i <= rangeindex ==> !(strings.ToLower(names[i]) in p.setOfElementsToSkipContent)
+//@     invariant[C08,C17] forall i int :: 0 <= i && i <= rangeindex ==> !(strings.ToLower(names[i]) in p.setOfElementsToSkipContent)
 
 //@ func (*bluemonday.Policy).RequireSandboxOnIFrame
 //@   reveal wfRegex, wfInner, wfURLPols
